@@ -77,6 +77,32 @@ def rule_text(chk, P):
         c09.rule_adj(px, fm, pr, lx)
     except (c09.Missing, I.Unknown) as e:
         chk.ob(P + ".anchor/c09-extraction", False, "anchor-missing: %s" % e, "rssl_formatter / rssl_parser")
+    # identifier capture changes what a use refers to: the NameMap uniqueness / visibility rules and the qualified-reference
+    # rule of C15 are re-evaluated under this property (for this target only)
+    import c15
+    tgt = "/hlsl" if P == "C01" else "/msl"
+    other = "/msl" if P == "C01" else "/hlsl"
+
+    class Nx(c04.Proxy):
+        def _k(self, key):
+            for a, b in self.mapping:
+                if key.startswith(a):
+                    return b + key[len(a):]
+            return P + ".names/" + key
+
+        def ob(self, key, ok, why="", where=None, trivial=False, sample=None):
+            if other in key:
+                return ok
+            return c04.Proxy.ob(self, key, ok, why, where, trivial, sample)
+
+        def floor(self, key, count, floor, what, where=None):
+            if other in key:
+                return True
+            return c04.Proxy.floor(self, key, count, floor, what, where)
+    nx = Nx(chk, [("C15.unique", P + ".names-unique"), ("C15.verbatim", P + ".names-verbatim"), ("C15.seeded", P + ".names-seeded"),
+                  ("C15.ref", P + ".names-qualified"), ("C15.anchor", P + ".anchor/c15"), ("C15.floor", P + ".floor/c15")])
+    c15.rule_namemap(nx)
+    c15.rule_qualified_refs(nx)
 
 
 # ------------------------------------------------------------------ operators
